@@ -3,7 +3,7 @@ import MythVerif.Proofs.WsQueueTsoTac
 namespace MythVerif.WsqTso
 open MythVerif.Wsq
 
-set_option maxHeartbeats 1000000 in
+set_option maxHeartbeats 4000000 in
 theorem t_kq0 (s s' : St) (p : Pid) : Inv s → s.tpc p = .kq0 → stepT s p = some s' → Inv s' := by
   intro h heq hs
   cases h
@@ -12,7 +12,7 @@ theorem t_kq0 (s s' : St) (p : Pid) : Inv s → s.tpc p = .kq0 → stepT s p = s
   simp only [ownerLocked, carry, resetting, ownerFlight] at *
   tso_finish
 
-set_option maxHeartbeats 1000000 in
+set_option maxHeartbeats 4000000 in
 theorem t_kq1 (s s' : St) (p : Pid) (t) : Inv s → s.tpc p = .kq1 t → stepT s p = some s' → Inv s' := by
   intro h heq hs
   cases h
@@ -22,7 +22,7 @@ theorem t_kq1 (s s' : St) (p : Pid) (t) : Inv s → s.tpc p = .kq1 t → stepT s
   all_goals simp only [ownerLocked, carry, resetting, ownerFlight] at *
   all_goals tso_finish
 
-set_option maxHeartbeats 1000000 in
+set_option maxHeartbeats 4000000 in
 theorem t_pk1 (s s' : St) (p : Pid) : Inv s → s.tpc p = .pk1 → stepT s p = some s' → Inv s' := by
   intro h heq hs
   cases h
@@ -31,7 +31,7 @@ theorem t_pk1 (s s' : St) (p : Pid) : Inv s → s.tpc p = .pk1 → stepT s p = s
   simp only [ownerLocked, carry, resetting, ownerFlight] at *
   tso_finish
 
-set_option maxHeartbeats 1000000 in
+set_option maxHeartbeats 4000000 in
 theorem t_pk2 (s s' : St) (p : Pid) (b) : Inv s → s.tpc p = .pk2 b → stepT s p = some s' → Inv s' := by
   intro h heq hs
   cases h
@@ -41,7 +41,7 @@ theorem t_pk2 (s s' : St) (p : Pid) (b) : Inv s → s.tpc p = .pk2 b → stepT s
   all_goals simp only [ownerLocked, carry, resetting, ownerFlight] at *
   all_goals tso_finish
 
-set_option maxHeartbeats 1000000 in
+set_option maxHeartbeats 4000000 in
 theorem t_pk3 (s s' : St) (p : Pid) (b) : Inv s → s.tpc p = .pk3 b → stepT s p = some s' → Inv s' := by
   intro h heq hs
   cases h
